@@ -12,7 +12,10 @@
    towards zero (Go's float -> integer conversion) -- [dur_floor].  The two agree whenever the count and
    the product are exactly representable (dyadic fractions of moderate size); for other decimals the
    float product can land one nanosecond below (recorded finding, see known_findings.d/C11.jsonl).
-   Of the PATTERN body only the pattern variables are read, in the order written. *)
+   The PATTERN body is read twice: the pattern variables in the order written (close_paren), and the row
+   pattern as a tree [pat] with its quantifier bounds (p_alt ..., mirror of the grammar of
+   rsql/parser_match_pattern.go: parseMRAlternation / parseMRSequence / parseMRQuantified / parseMRAtom /
+   parseMRPermute / tryMRQuantifier / parseMRBounded / consumeReluctant). *)
 From SV Require Export Model.Stmt.
 From Coq Require Import String.
 Local Open Scope N_scope.
@@ -136,11 +139,23 @@ Definition within_value (toks : list token) : option (Z * list token) :=
   | [] => None
   end.
 
+(* ---- PATTERN ( ... ) as a tree: variables, sequence, alternation, group, PERMUTE, exclusion, and
+   repetition with the written bounds.  Normal form of the Go parser: a sequence / alternation of one
+   element is that element; a parenthesised sub-pattern is a PGroup node. ---- *)
+Inductive pat : Type :=
+| PSym (s : bytes)
+| PSeq (l : list pat)
+| PAlt (l : list pat)
+| PGroup (p : pat)
+| PPermute (l : list pat)
+| PExcl (p : pat)
+| PRep (p : pat) (lo : N) (hi : option N) (greedy : bool).   (* hi = None: unbounded *)
+
 (* ---- the clause loop ---- *)
 Record mrspec := mkMR {
   mr_part : list bytes; mr_order : list bytes; mr_all : bool; mr_skip : N; mr_skip_sym : bytes;
   mr_within : Z; mr_measures : list bytes; mr_defines : list bytes; mr_subsets : list (bytes * list bytes);
-  mr_pattern : option (list bytes) }.
+  mr_pattern : option (list bytes); mr_tree : option pat }.
 
 (* a word recognised by its upper-cased value, whatever the token type (strings.ToUpper(t.Value) / EqualFold) *)
 Definition wd (w : bytes) (t : token) : bool := bytes_eqb (map upper (tval t)) w.
@@ -230,6 +245,199 @@ Fixpoint close_paren (d : nat) (toks : list token) : option (list bytes * list t
          end
   end.
 
+(* ---- the row pattern as a tree (grammar of rsql/parser_match_pattern.go) ---- *)
+(* strconv.Atoi on the text of a TokenNumber that is a plain digit string ("2.5", "-1" are no bounds) *)
+Definition all_digits (s : bytes) : bool :=
+  forallb is_digit s && negb (match s with [] => true | _ => false end).
+Definition p_bound (t : token) : option N :=
+  if ty_is T_Number t && all_digits (tval t) then Some (digits_val 0 (tval t)) else None.
+
+(* parseMRBounded, after '{':  n '}'  |  n ',' '}'  |  n ',' m '}'  with n <= m (n = m included: {2,2} is {2});
+   an inverted range is outside the documented grammar (the Go parser keeps it, cep/pattern.go refuses it) *)
+Definition p_bounded (toks : list token) : option ((N * option N) * list token) :=
+  match toks with
+  | n :: c :: r =>
+    match p_bound n with
+    | Some lo =>
+      if ty_is T_RBrace c then Some ((lo, Some lo), r)
+      else if ty_is T_Comma c then
+        match r with
+        | m :: r1 =>
+          if ty_is T_RBrace m then Some ((lo, None), r1)
+          else match p_bound m, r1 with
+               | Some hi, e :: r2 => if ty_is T_RBrace e && N.leb lo hi then Some ((lo, Some hi), r2) else None
+               | _, _ => None
+               end
+        | [] => None
+        end
+      else None
+    | None => None
+    end
+  | _ => None
+  end.
+
+(* consumeReluctant: a '?' right after a quantifier makes it reluctant; (greedy, rest) *)
+Definition take_reluctant (toks : list token) : bool * list token :=
+  match toks with
+  | t :: r => if ty_is T_Question t then (false, r) else (true, toks)
+  | [] => (true, [])
+  end.
+
+(* tryMRQuantifier: None = malformed, Some (None, toks) = no quantifier written here
+   ("{-" opens an exclusion that follows, it is not a bounded quantifier) *)
+Definition p_quant (toks : list token) : option (option (N * option N * bool) * list token) :=
+  match toks with
+  | t :: r =>
+    if ty_is T_Question t then let (g, r') := take_reluctant r in Some (Some (0, Some 1, g), r')
+    else if ty_is T_Asterisk t then let (g, r') := take_reluctant r in Some (Some (0, None, g), r')
+    else if ty_is T_Plus t then let (g, r') := take_reluctant r in Some (Some (1, None, g), r')
+    else if ty_is T_LBrace t then
+      if hd_is (ty_is T_Minus) r then Some (None, toks)
+      else match p_bounded r with
+           | Some ((lo, hi), r1) => let (g, r') := take_reluctant r1 in Some (Some (lo, hi, g), r')
+           | None => None
+           end
+    else Some (None, toks)
+  | [] => Some (None, [])
+  end.
+
+(* isMRIdentLike / isMRAtomStart *)
+Definition ident_like (t : token) : bool := match tval t with c :: _ => is_letter c | [] => false end.
+Definition is_atom_start (t : token) : bool := ty_is T_LParen t || ty_is T_LBrace t || ident_like t.
+
+(* recursive descent with one fuel for the depth of the call chain (each call passes a smaller fuel) *)
+Fixpoint p_alt (f : nat) (toks : list token) : option (pat * list token) :=
+  match f with
+  | O => None
+  | S f' =>
+    match p_seq f' toks with
+    | Some (s, r) =>
+      match p_alt_more f' r with
+      | Some ([], r') => Some (s, r')
+      | Some (l, r') => Some (PAlt (s :: l), r')
+      | None => None
+      end
+    | None => None
+    end
+  end
+with p_alt_more (f : nat) (toks : list token) : option (list pat * list token) :=
+  match f with
+  | O => None
+  | S f' =>
+    match toks with
+    | t :: r =>
+      if ty_is T_Pipe t then
+        match p_seq f' r with
+        | Some (s, r1) => match p_alt_more f' r1 with Some (l, r2) => Some (s :: l, r2) | None => None end
+        | None => None
+        end
+      else Some ([], toks)
+    | [] => Some ([], [])
+    end
+  end
+with p_seq (f : nat) (toks : list token) : option (pat * list token) :=
+  match f with
+  | O => None
+  | S f' =>
+    match p_items f' toks with
+    | Some ([], _) => None
+    | Some ([a], r) => Some (a, r)
+    | Some (l, r) => Some (PSeq l, r)
+    | None => None
+    end
+  end
+with p_items (f : nat) (toks : list token) : option (list pat * list token) :=
+  match f with
+  | O => None
+  | S f' =>
+    if hd_is is_atom_start toks then
+      match p_quantified f' toks with
+      | Some (a, r) => match p_items f' r with Some (l, r') => Some (a :: l, r') | None => None end
+      | None => None
+      end
+    else Some ([], toks)
+  end
+with p_quantified (f : nat) (toks : list token) : option (pat * list token) :=
+  match f with
+  | O => None
+  | S f' =>
+    match p_atom f' toks with
+    | Some (a, r) =>
+      match p_quant r with
+      | Some (Some (lo, hi, g), r') => Some (PRep a lo hi g, r')
+      | Some (None, r') => Some (a, r')
+      | None => None
+      end
+    | None => None
+    end
+  end
+with p_atom (f : nat) (toks : list token) : option (pat * list token) :=
+  match f with
+  | O => None
+  | S f' =>
+    match toks with
+    | t :: r =>
+      if ty_is T_LParen t then
+        match p_alt f' r with
+        | Some (p, c :: r') => if ty_is T_RParen c then Some (PGroup p, r') else None
+        | _ => None
+        end
+      else if ty_is T_LBrace t then
+        match r with
+        | d :: r1 =>
+          if ty_is T_Minus d then
+            match p_alt f' r1 with
+            | Some (p, d2 :: c :: r') => if ty_is T_Minus d2 && ty_is T_RBrace c then Some (PExcl p, r') else None
+            | _ => None
+            end
+          else None
+        | [] => None
+        end
+      else if ident_like t then
+        if ty_is T_Ident t && wd W_PERMUTE t then
+          match r with
+          | l :: r1 =>
+            if ty_is T_LParen l then
+              match p_alts f' r1 with
+              | Some (ps, c :: r') => if ty_is T_RParen c then Some (PPermute ps, r') else None
+              | _ => None
+              end
+            else None
+          | [] => None
+          end
+        else Some (PSym (strip_bt (tval t)), r)
+      else None
+    | [] => None
+    end
+  end
+with p_alts (f : nat) (toks : list token) : option (list pat * list token) :=
+  match f with
+  | O => None
+  | S f' =>
+    match p_alt f' toks with
+    | Some (p, r) =>
+      if hd_is (ty_is T_Comma) r then
+        match p_alts f' (tl r) with Some (l, r') => Some (p :: l, r') | None => None end
+      else Some ([p], r)
+    | None => None
+    end
+  end.
+
+(* parseMRPatternBody after its '(': the tree and the tokens after the closing ')' *)
+Definition p_pattern (toks : list token) : option (pat * list token) :=
+  match p_alt (6 * List.length toks + 10) toks with
+  | Some (p, c :: r) => if ty_is T_RParen c then Some (p, r) else None
+  | _ => None
+  end.
+
+(* the pattern variables of a tree, in the order written *)
+Fixpoint pat_syms (p : pat) : list bytes :=
+  match p with
+  | PSym s => [s]
+  | PSeq l | PAlt l | PPermute l => flat_map pat_syms l
+  | PGroup q | PExcl q | PRep q _ _ _ => pat_syms q
+  end.
+
 Definition expect_words (ws : list bytes) (toks : list token) : option (list token) :=
   fold_left (fun acc w => match acc with
                           | Some (t :: r) => if wd w t then Some r else None
@@ -273,7 +481,7 @@ Definition p_skip (toks : list token) : option ((N * bytes) * list token) :=
   | _ => None
   end.
 
-Definition mr_empty : mrspec := mkMR [] [] false 0 [] 0%Z [] [] [] None.
+Definition mr_empty : mrspec := mkMR [] [] false 0 [] 0%Z [] [] [] None None.
 
 Fixpoint mr_loop (fuel : nat) (sp : mrspec) (toks : list token) : option (mrspec * list token) :=
   match fuel with
@@ -287,7 +495,7 @@ Fixpoint mr_loop (fuel : nat) (sp : mrspec) (toks : list token) : option (mrspec
       else if wd W_PARTITION t then
         match expect_words [W_BY] r with
         | Some r1 => match sep_by p_sym T_Comma n r1 with
-                     | Some (l, r2) => mr_loop f (mkMR l (mr_order sp) (mr_all sp) (mr_skip sp) (mr_skip_sym sp) (mr_within sp) (mr_measures sp) (mr_defines sp) (mr_subsets sp) (mr_pattern sp)) r2
+                     | Some (l, r2) => mr_loop f (mkMR l (mr_order sp) (mr_all sp) (mr_skip sp) (mr_skip_sym sp) (mr_within sp) (mr_measures sp) (mr_defines sp) (mr_subsets sp) (mr_pattern sp) (mr_tree sp)) r2
                      | None => None
                      end
         | None => None
@@ -295,54 +503,57 @@ Fixpoint mr_loop (fuel : nat) (sp : mrspec) (toks : list token) : option (mrspec
       else if wd W_ORDER t then
         match expect_words [W_BY] r with
         | Some r1 => match sep_by p_mr_key T_Comma n r1 with
-                     | Some (l, r2) => mr_loop f (mkMR (mr_part sp) l (mr_all sp) (mr_skip sp) (mr_skip_sym sp) (mr_within sp) (mr_measures sp) (mr_defines sp) (mr_subsets sp) (mr_pattern sp)) r2
+                     | Some (l, r2) => mr_loop f (mkMR (mr_part sp) l (mr_all sp) (mr_skip sp) (mr_skip_sym sp) (mr_within sp) (mr_measures sp) (mr_defines sp) (mr_subsets sp) (mr_pattern sp) (mr_tree sp)) r2
                      | None => None
                      end
         | None => None
         end
       else if wd W_MEASURES t then
         match sep_by p_measure T_Comma n r with
-        | Some (l, r2) => mr_loop f (mkMR (mr_part sp) (mr_order sp) (mr_all sp) (mr_skip sp) (mr_skip_sym sp) (mr_within sp) l (mr_defines sp) (mr_subsets sp) (mr_pattern sp)) r2
+        | Some (l, r2) => mr_loop f (mkMR (mr_part sp) (mr_order sp) (mr_all sp) (mr_skip sp) (mr_skip_sym sp) (mr_within sp) l (mr_defines sp) (mr_subsets sp) (mr_pattern sp) (mr_tree sp)) r2
         | None => None
         end
       else if wd W_ONE t then
         match expect_words [W_ROW; W_PER; W_MATCH] r with
-        | Some r2 => mr_loop f (mkMR (mr_part sp) (mr_order sp) false (mr_skip sp) (mr_skip_sym sp) (mr_within sp) (mr_measures sp) (mr_defines sp) (mr_subsets sp) (mr_pattern sp)) r2
+        | Some r2 => mr_loop f (mkMR (mr_part sp) (mr_order sp) false (mr_skip sp) (mr_skip_sym sp) (mr_within sp) (mr_measures sp) (mr_defines sp) (mr_subsets sp) (mr_pattern sp) (mr_tree sp)) r2
         | None => None
         end
       else if wd W_ALL t then
         match expect_words [W_ROWS; W_PER; W_MATCH] r with
-        | Some r2 => mr_loop f (mkMR (mr_part sp) (mr_order sp) true (mr_skip sp) (mr_skip_sym sp) (mr_within sp) (mr_measures sp) (mr_defines sp) (mr_subsets sp) (mr_pattern sp)) r2
+        | Some r2 => mr_loop f (mkMR (mr_part sp) (mr_order sp) true (mr_skip sp) (mr_skip_sym sp) (mr_within sp) (mr_measures sp) (mr_defines sp) (mr_subsets sp) (mr_pattern sp) (mr_tree sp)) r2
         | None => None
         end
       else if wd W_AFTER t then
         match p_skip r with
-        | Some ((k, s), r2) => mr_loop f (mkMR (mr_part sp) (mr_order sp) (mr_all sp) k s (mr_within sp) (mr_measures sp) (mr_defines sp) (mr_subsets sp) (mr_pattern sp)) r2
+        | Some ((k, s), r2) => mr_loop f (mkMR (mr_part sp) (mr_order sp) (mr_all sp) k s (mr_within sp) (mr_measures sp) (mr_defines sp) (mr_subsets sp) (mr_pattern sp) (mr_tree sp)) r2
         | None => None
         end
       else if wd W_PATTERN t then
         match r with
         | l :: r1 => if ty_is T_LParen l then
-                       match close_paren 0 r1 with
-                       | Some (ps, r2) => mr_loop f (mkMR (mr_part sp) (mr_order sp) (mr_all sp) (mr_skip sp) (mr_skip_sym sp) (mr_within sp) (mr_measures sp) (mr_defines sp) (mr_subsets sp) (Some ps)) r2
-                       | None => None
+                       match close_paren 0 r1, p_pattern r1 with
+                       | Some (ps, r2), Some (tree, r2') =>
+                         if Nat.eqb (List.length r2') (List.length r2)   (* both readings end at the same ')' *)
+                         then mr_loop f (mkMR (mr_part sp) (mr_order sp) (mr_all sp) (mr_skip sp) (mr_skip_sym sp) (mr_within sp) (mr_measures sp) (mr_defines sp) (mr_subsets sp) (Some ps) (Some tree)) r2
+                         else None
+                       | _, _ => None
                        end
                      else None
         | [] => None
         end
       else if wd W_SUBSET t then
         match sep_by (p_subset n) T_Comma n r with
-        | Some (l, r2) => mr_loop f (mkMR (mr_part sp) (mr_order sp) (mr_all sp) (mr_skip sp) (mr_skip_sym sp) (mr_within sp) (mr_measures sp) (mr_defines sp) (mr_subsets sp ++ l) (mr_pattern sp)) r2
+        | Some (l, r2) => mr_loop f (mkMR (mr_part sp) (mr_order sp) (mr_all sp) (mr_skip sp) (mr_skip_sym sp) (mr_within sp) (mr_measures sp) (mr_defines sp) (mr_subsets sp ++ l) (mr_pattern sp) (mr_tree sp)) r2
         | None => None
         end
       else if wd W_WITHIN t then
         match within_value r with
-        | Some (z, r2) => mr_loop f (mkMR (mr_part sp) (mr_order sp) (mr_all sp) (mr_skip sp) (mr_skip_sym sp) z (mr_measures sp) (mr_defines sp) (mr_subsets sp) (mr_pattern sp)) r2
+        | Some (z, r2) => mr_loop f (mkMR (mr_part sp) (mr_order sp) (mr_all sp) (mr_skip sp) (mr_skip_sym sp) z (mr_measures sp) (mr_defines sp) (mr_subsets sp) (mr_pattern sp) (mr_tree sp)) r2
         | None => None
         end
       else if wd W_DEFINE t then
         match sep_by p_define T_Comma n r with
-        | Some (l, r2) => mr_loop f (mkMR (mr_part sp) (mr_order sp) (mr_all sp) (mr_skip sp) (mr_skip_sym sp) (mr_within sp) (mr_measures sp) l (mr_subsets sp) (mr_pattern sp)) r2
+        | Some (l, r2) => mr_loop f (mkMR (mr_part sp) (mr_order sp) (mr_all sp) (mr_skip sp) (mr_skip_sym sp) (mr_within sp) (mr_measures sp) l (mr_subsets sp) (mr_pattern sp) (mr_tree sp)) r2
         | None => None
         end
       else None
